@@ -212,6 +212,30 @@ class RetxRules(Rule):
                         if x.req is rq:
                             L.violate("C13", "T2", "resent-by-stale-timer:%s" % x.type,
                                       "%s id %r re-sent by a stale timer (armed for an earlier transmission)" % (x.type, rq.msgId))
+        # a retry timer cancelled although its packet stays unacknowledged on a connection that is up
+        for tid in d.timers_cancel:
+            tm = L.timers.get(tid)
+            if tm is None or tm["kind"] != "retry" or tm.get("pkt") is None:
+                continue
+            op = tm["pkt"]
+            rq = op.req
+            c = L.conns.get(op.ci)
+            if rq is None or not rq.pending or not _up(c) or d.excs:
+                continue
+            seqlist = rq.rel_tx if op.type == "PUBREL" else rq.tx
+            if not seqlist or seqlist[-1] is not op:
+                continue        # a newer transmission (with its own timer) took over
+            if op.type == "PUBLISH":
+                waiting = rq.ack1 is None
+            elif op.type == "PUBREL":
+                waiting = rq.ack2 is None
+            else:
+                waiting = rq.ack1 is None
+            if waiting and not (c.connack_seq is not None and rq.ci != c.ci and d.seq <= c.connack_seq):
+                L.probe("retry_timer_cancelled_unacked")
+                L.violate("C08", "R1", "timer-cancelled-unacked:%s:%s" % (op.type, d.kind),
+                          "%s id %r: its retry timer was cancelled in a %s dispatch although it is unacknowledged and conn %d is up"
+                          % (op.type, rq.msgId, d.kind, c.ci))
         # transmissions that arm no timer
         for op in d.untimed:
             c = L.conns.get(op.ci)
